@@ -646,3 +646,8 @@ DESIGN_REF = "DESIGN.md section 4 C05, section 3.2, 3.3"
 LEVEL_NOTE = ("Trusted: Coq kernel+VM; Spec/Zone.v as a model of zoneinfo and Spec/TdFloat.v as a model of CPython floats/timedelta (both validated on every run); the hand model "
               "Model/IntervalLen.v (validated by correspondence, both backends); the float premises Hrt/H64/Hsplit/Hdiv are proved (Flocq; real-number axioms of the standard library), so the length theorems hold unconditionally.")
 TECHNIQUE = "Coq proof (lia over the zone model; float part through Flocq's binary64 correctness + vm_compute boundary families) + differential correspondence around every tz transition + stdlib integer oracle"
+
+
+# ---- model = code theorems for the Interval construction (appended) ----
+TRUSTED = [t for t in TRUSTED] + ["model_is_code_interval_new (+ _shape, _diff, _sub_datetime, _rsub_datetime, _date_diff, _date_sub_date): Interval.__new__ up to its delta, DateTime.diff / __sub__ / __rsub__ with a datetime operand, Date.diff / __sub__ with a date operand and pendulum.naive are translated from /repo on every run (Gen/IntervalGlue.v, tools/vlib/gens/g17_interval_glue.py) and Model/IntervalLen.v interval_new_delta is PROVED equal to the translated __new__ for every pair of well-formed objects (class-tagged objects of Model/IntervalObj.v: native date / native datetime / pendulum Date / pendulum DateTime) and both values of absolute; the `-` / diff entry points are proved to be 'normalise the operand (pendulum.naive with fold 1 / DateTime.instance / unchanged), then Interval(...)' over the translated pieces. By hand: the class-tagged object model and its native primitives (comparison, subtraction, utcoffset, constructors: tied to CPython by C11's spec_is_stdlib_* theorems), isinstance as tests on the class tag, datetime(...)/date(...) of interval.py = the native constructors, the tail Duration.__new__(cls, seconds=delta.total_seconds()) (Spec/TdFloat.v + Model/Duration.v, C09). STILL hand-written + pinned only: Interval.__init__ (endpoint normalisation through pendulum.instance, _invert, the absolute swap, precise_diff), the component properties, in_*, __contains__, as_duration, __abs__/__neg__, the link from norm_operand to normalise_operand/instance_ep of the model (canonical timezone object of a foreign tzinfo), interval_make / dt_sub as whole records"]
+LEVEL_NOTE = LEVEL_NOTE + " " + "model_is_code_interval_new (+ _shape, _diff, _sub_datetime, _rsub_datetime, _date_diff, _date_sub_date): Interval.__new__ up to its delta, DateTime.diff / __sub__ / __rsub__ with a datetime operand, Date.diff / __sub__ with a date operand and pendulum.naive are translated from /repo on every run (Gen/IntervalGlue.v, tools/vlib/gens/g17_interval_glue.py) and Model/IntervalLen.v interval_new_delta is PROVED equal to the translated __new__ for every pair of well-formed objects (class-tagged objects of Model/IntervalObj.v: native date / native datetime / pendulum Date / pendulum DateTime) and both values of absolute; the `-` / diff entry points are proved to be 'normalise the operand (pendulum.naive with fold 1 / DateTime.instance / unchanged), then Interval(...)' over the translated pieces. By hand: the class-tagged object model and its native primitives (comparison, subtraction, utcoffset, constructors: tied to CPython by C11's spec_is_stdlib_* theorems), isinstance as tests on the class tag, datetime(...)/date(...) of interval.py = the native constructors, the tail Duration.__new__(cls, seconds=delta.total_seconds()) (Spec/TdFloat.v + Model/Duration.v, C09). STILL hand-written + pinned only: Interval.__init__ (endpoint normalisation through pendulum.instance, _invert, the absolute swap, precise_diff), the component properties, in_*, __contains__, as_duration, __abs__/__neg__, the link from norm_operand to normalise_operand/instance_ep of the model (canonical timezone object of a foreign tzinfo), interval_make / dt_sub as whole records" + "."
